@@ -287,8 +287,19 @@ func (g *graphGen) leaf2(kind string) string {
 	return "[]"
 }
 
+// GraphMeta names the globals a generated module binds, by kind.
+type GraphMeta struct {
+	Any, Lists, Dicts, Sets, Funcs []string
+}
+
 // GraphModule generates a module program.
 func GraphModule(r *Rng, o GraphOpts) []string {
+	u, _ := GraphModuleMeta(r, o)
+	return u
+}
+
+// GraphModuleMeta generates a module program and reports what it binds.
+func GraphModuleMeta(r *Rng, o GraphOpts) ([]string, GraphMeta) {
 	g := &graphGen{r: r, o: o}
 	for _, l := range o.Loads {
 		var parts []string
@@ -312,5 +323,5 @@ func GraphModule(r *Rng, o GraphOpts) []string {
 		}
 		g.block()
 	}
-	return g.units
+	return g.units, GraphMeta{Any: g.any, Lists: g.lists, Dicts: g.dicts, Sets: g.sets, Funcs: g.funcs}
 }
